@@ -173,9 +173,8 @@ example : ∃ (fl : ℝ → ℝ) (u : ℝ) (n k : ℕ), (∀ x, |fl x - x| ≤ u
 /-- what `ci_wilson` computes at `RR fl` on its domain once `z_value` has answered `z`: the rounded
     bounds clamped into `[0, 1]` — `max (fl (centre' - span')) 0` and `min (fl (centre' + span')) 1`
     — (far end `1` / `0` for one-sided requests) if `Interval::new` finds the pair ordered, else
-    `InvalidBounds`.  (The lower bound is clamped from below only: an upper one-sided request is
-    still rejected when `fl (centre' - span') > 1`; likewise a lower one when
-    `fl (centre' + span') < 0`.) -/
+    `InvalidBounds`.  (In the one-sided arms the finite bound is clamped on both sides — the repair
+    of D17 —, so a one-sided request on the domain is never rejected, whatever `fl` and `z` are.) -/
 theorem ciWilson_fl (crit : Crit (RR fl)) (conf : Confidence (RR fl)) (n k : ℕ)
     (hnat : ∀ m : ℕ, m ≤ n → fl m = m) (hk : 2 ≤ k) (hkn : k + 2 ≤ n) (z : ℝ)
     (hz : zValue crit conf = .ok ⟨z⟩) :
@@ -188,20 +187,35 @@ theorem ciWilson_fl (crit : Crit (RR fl)) (conf : Confidence (RR fl)) (n k : ℕ
                          ⟨min (fl (flCentre fl n k z + flSpan fl n k z)) 1⟩)
         else .err (.interval .invalidBounds)
       | .upper _ =>
-        if fl (flCentre fl n k z - flSpan fl n k z) ≤ 1 then
-          .ok (.twoSided ⟨max (fl (flCentre fl n k z - flSpan fl n k z)) 0⟩ ⟨1⟩)
-        else .err (.interval .invalidBounds)
+        .ok (.twoSided ⟨min (max (fl (flCentre fl n k z - flSpan fl n k z)) 0) 1⟩ ⟨1⟩)
       | .lower _ =>
-        if 0 ≤ fl (flCentre fl n k z + flSpan fl n k z) then
-          .ok (.twoSided ⟨0⟩ ⟨min (fl (flCentre fl n k z + flSpan fl n k z)) 1⟩)
-        else .err (.interval .invalidBounds) := by
+        .ok (.twoSided ⟨0⟩ ⟨max (min (fl (flCentre fl n k z + flSpan fl n k z)) 1) 0⟩) := by
   rw [ciWilson_eq_fl crit conf n k hnat hk hkn z hz]
   cases conf with
   | twoSided l => rfl
   | upper l =>
-    simp only [Confidence.kind, wLo, wHi, max_le_iff, zero_le_one, and_true]
+    simp only [Confidence.kind, wLo, wHi]
+    exact if_pos (min_le_right _ _)
   | lower l =>
-    simp only [Confidence.kind, wLo, wHi, le_min_iff, zero_le_one, and_true]
+    simp only [Confidence.kind, wLo, wHi]
+    exact if_pos (le_max_right _ _)
+
+/-- on its domain a *one-sided* request always succeeds at `RR fl` — every rounding function exact on
+    the counts, every real critical value (negative ones included: one-sided levels below 1/2) — and
+    the reported finite bound lies in `[0, 1]` (D17: before the repair a bound rounded past the far
+    end made `Interval::new` fail with `InvalidBounds`) -/
+theorem ciWilson_one_sided_total (crit : Crit (RR fl)) (conf : Confidence (RR fl)) (n k : ℕ)
+    (hnat : ∀ m : ℕ, m ≤ n → fl m = m) (hk : 2 ≤ k) (hkn : k + 2 ≤ n) (z : ℝ)
+    (hz : zValue crit conf = .ok ⟨z⟩) (hkind : conf.kind ≠ .twoSided) :
+    ∃ lo hi : RR fl, ciWilson crit conf n k = .ok (.twoSided lo hi) ∧
+      0 ≤ lo.val ∧ lo.val ≤ hi.val ∧ hi.val ≤ 1 := by
+  rw [ciWilson_fl crit conf n k hnat hk hkn z hz]
+  cases conf with
+  | twoSided l => exact absurd rfl hkind
+  | upper l =>
+    exact ⟨_, _, rfl, le_min (le_max_right _ _) zero_le_one, min_le_right _ _, le_rfl⟩
+  | lower l =>
+    exact ⟨_, _, rfl, le_rfl, le_max_right _ _, max_le (min_le_right _ _) zero_le_one⟩
 
 /-- for every `fl` whatsoever — no standard model, no monotonicity, no exactness on the counts —,
     every oracle, every confidence (valid or not) and all counts: an `Ok` result of `ci_wilson` at
@@ -305,7 +319,7 @@ example : ∃ (fl : ℝ → ℝ) (u : ℝ) (n k : ℕ) (confF : Confidence (RR f
     (by norm_num)
   have l1 := neg_abs_le (span ((4 : ℕ) : ℝ) ((2 : ℕ) : ℝ) 1)
   have l2 := le_abs_self (span ((4 : ℕ) : ℝ) ((2 : ℕ) : ℝ) 1)
-  rw [wLo_id_eq _ (by linarith), wHi_id_eq _ (by linarith)] at eE
+  rw [wLo_id_eq _ (by linarith) (by linarith), wHi_id_eq _ (by linarith) (by linarith)] at eE
   refine ⟨badFl, 1 / 1024, 4, 2, .twoSided ⟨1 / 2⟩, .twoSided ⟨1 / 2⟩, 1, _, _, badFl_err,
     by norm_num, le_rfl, badFl_not_monotone, fun m _ => badFl_nat m, by omega, by omega, rfl,
     hzF, hzE, eE, ?_⟩
